@@ -4,22 +4,22 @@ name=$1; wt=$2; shift 2
 export GOPROXY=off GOSUMDB=off GOTOOLCHAIN=local
 echo "## $name"
 (cd $wt && go build ./... ) || { echo "DOES NOT BUILD"; exit 1; }
-(cd $wt && go test -json -vet=off -count=1 ./... 2>/dev/null > /tmp/seed-test.json)
-python3 - <<'PY'
+(cd $wt && go test -json -vet=off -count=1 ./... 2>/dev/null > /tmp/seed-test-$name.json)
+SCNAME=$name python3 - <<'PY'
 import json
 base=set(json.load(open('/root/.vp/BASELINE.json'))['stable_pass']); passed=set()
-for l in open('/tmp/seed-test.json'):
+for l in open('/tmp/seed-test-'+__import__('os').environ['SCNAME']+'.json'):
     try: e=json.loads(l)
     except: continue
     if e.get('Action')=='pass' and e.get('Test'): passed.add(e['Package']+'::'+e['Test'])
 print('baseline tests passing:', len(base&passed), 'of', len(base), 'missing', sorted(base-passed)[:3])
 PY
-(cd $wt && go build -o /tmp/borno-seed-$name . ) && (cd /repo && go build -o /tmp/borno-orig . )
+(cd $wt && go build -o /tmp/borno-seed-$name . ) && (cd /repo && go build -o /tmp/borno-orig-$name . )
 for d in ${SEEDDIR:-/tmp/seed-$name}/*.bn; do
   [ -f "$d" ] || continue
-  timeout 10 /tmp/borno-orig $d > /tmp/o1.txt 2>/tmp/e1.txt; s1=$?
-  timeout 10 /tmp/borno-seed-$name $d > /tmp/o2.txt 2>/tmp/e2.txt; s2=$?
-  if cmp -s /tmp/o1.txt /tmp/o2.txt && cmp -s /tmp/e1.txt /tmp/e2.txt && [ $s1 = $s2 ]; then echo "demo $(basename $d): SAME behaviour (exit $s1)"; else echo "demo $(basename $d): DIFFERS (orig exit $s1, changed exit $s2)"; fi
+  timeout 10 /tmp/borno-orig-$name $d > /tmp/o1-$name.txt 2>/tmp/e1-$name.txt; s1=$?
+  timeout 10 /tmp/borno-seed-$name $d > /tmp/o2-$name.txt 2>/tmp/e2-$name.txt; s2=$?
+  if cmp -s /tmp/o1-$name.txt /tmp/o2-$name.txt && cmp -s /tmp/e1-$name.txt /tmp/e2-$name.txt && [ $s1 = $s2 ]; then echo "demo $(basename $d): SAME behaviour (exit $s1)"; else echo "demo $(basename $d): DIFFERS (orig exit $s1, changed exit $s2)"; fi
 done
 for p in "$@"; do
   /verif/bin/bsym check -repo $wt -prop $p -tier ${TIER:-quick} > /tmp/seedcheck-$name-$p.out 2>&1; echo "check $p exit=$? : $(grep -c '^VIOLATION' /tmp/seedcheck-$name-$p.out) violations; $(grep '^VIOLATION' /tmp/seedcheck-$name-$p.out | sed 's/.*# //' | sort -u | head -3 | tr '\n' '|') $(grep '^INCONCLUSIVE' /tmp/seedcheck-$name-$p.out | head -2 | cut -c1-200)"
